@@ -954,7 +954,14 @@ def cast_scalar(x, dt):
         if isinstance(x, SBool):
             return x.num()
         if isinstance(x, SInt):
+            if d.itemsize == 1:     # 8-bit targets wrap (C cast); wider integer targets are assumed to hold the value
+                off = 128 if d.kind == "i" else 0
+                return (x + off) % 256 - off
             return x
+        if d.itemsize == 1:
+            t = x.trunc()
+            off = 128 if d.kind == "i" else 0
+            return (t + off) % 256 - off
         return x.trunc()
     if d.kind == "b":
         if isinstance(x, SBool):
